@@ -648,7 +648,87 @@ type c18Seq struct {
 	root int
 }
 
+// c18LongLists: long typed and untyped lists (above every size at which an implementation may switch strategy)
+// through the operators and filters that only read them; the context is compared with a deep copy taken before.
+func c18LongLists(res *Result) {
+	mk := func() map[string]interface{} {
+		ss := make([]string, 70)
+		is := make([]int, 70)
+		xs := make([]interface{}, 70)
+		fs := make([]float64, 70)
+		for i := range ss {
+			k := (i*37 + 11) % 70 // unsorted, no duplicates
+			ss[i] = fmt.Sprintf("w%02d", k)
+			is[i] = k
+			xs[i] = fmt.Sprintf("x%02d", k)
+			fs[i] = float64(k) + 0.5
+		}
+		xs[5] = 12
+		return map[string]interface{}{"ss": ss, "is": is, "xs": xs, "fs": fs,
+			"m": map[string]interface{}{"k": ss, "j": map[string][]int{"deep": is}}, "st": struct{ Items []string }{ss}}
+	}
+	tpls := []string{
+		"{{ 'w10' in ss ? 1 : 0 }}{{ 'nope' in ss ? 1 : 0 }}{{ 'w69' not in ss ? 1 : 0 }}",
+		"{{ 10 in is ? 1 : 0 }}{{ 999 in is ? 1 : 0 }}{{ 'x10' in xs ? 1 : 0 }}{{ 12 in xs ? 1 : 0 }}{{ 10.5 in fs ? 1 : 0 }}",
+		"{{ 'w10' in m.k ? 1 : 0 }}{{ 3 in m.j.deep ? 1 : 0 }}{{ 'w33' in st.Items ? 1 : 0 }}",
+		"{% if 'w42' in ss and 'zz' not in ss %}y{% endif %}{% for s in ss %}{% if s in ss %}.{% endif %}{% endfor %}",
+		"{{ ss|sort|first }}{{ is|sort|last }}{{ xs|sort|length }}{{ fs|sort|first }}",
+		"{{ ss|reverse|first }}{{ is|reverse|last }}{{ xs|reverse|length }}",
+		"{{ ss|slice(3, 60)|length }}{{ is|slice(-65)|first }}{{ xs|slice(1)|last }}",
+		"{{ ss|merge(ss)|length }}{{ is|merge([1])|last }}{{ xs|merge(ss)|first }}",
+		"{{ ss|join(',')|length }}{{ is|join|length }}{{ ss|first }}{{ ss|last }}{{ ss|length }}{{ is|keys|last }}",
+		"{{ max(is) }}{{ min(is) }}{% for i in is|sort|reverse|slice(0, 55) %}{% endfor %}{{ ss|sort|reverse|join('')|length }}",
+		"{% set t = ss|sort %}{% set u = t|reverse %}{{ t|first }}{{ u|first }}{{ ss|first }}{% set v = is|merge(is)|sort %}{{ v|last }}",
+		"{{ ss|default(['d'])|length }}{{ ss|json_encode|length }}{{ ss|raw|length }}{{ xs|first }}{{ cycle(ss, 75) }}",
+	}
+	for ti, src := range tpls {
+		ctx := mk()
+		before := c18DeepCopy(reflect.ValueOf(ctx), 0).Interface()
+		eng := twig.New()
+		c := Case{"stream": "long-lists", "tpl": src}
+		res.Hist["stream:long-lists"]++
+		res.Evaluations++
+		if err := eng.RegisterString("t", src); err != nil {
+			res.Notes = append(res.Notes, fmt.Sprintf("long-lists template %d does not parse: %v", ti, err))
+			continue
+		}
+		func() {
+			defer func() {
+				if r := recover(); r != nil {
+					res.add(Finding{Kind: "oracle", Where: "long-lists", Case: c, Detail: fmt.Sprintf("panic: %v", r)})
+				}
+			}()
+			out1, err1 := eng.Render("t", ctx)
+			if !reflect.DeepEqual(ctx, before) {
+				res.add(Finding{Kind: "oracle", Where: "long-lists", Case: c, Expected: "the context as it was handed over",
+					Observed: c18FirstDiff(before, ctx), Detail: "a render changed a list of the caller's context (70 elements): " + src})
+				return
+			}
+			// a second render on the same data gives the same output
+			out2, err2 := eng.Render("t", ctx)
+			if out1 != out2 || (err1 == nil) != (err2 == nil) {
+				res.add(Finding{Kind: "oracle", Where: "long-lists", Case: c, Expected: out1, Observed: out2, Detail: "two renders that share context data differ"})
+			}
+		}()
+	}
+}
+
+func c18FirstDiff(a, b interface{}) string {
+	ma, ok1 := a.(map[string]interface{})
+	mb, ok2 := b.(map[string]interface{})
+	if !ok1 || !ok2 {
+		return "differs"
+	}
+	for k := range ma {
+		if !reflect.DeepEqual(ma[k], mb[k]) {
+			return fmt.Sprintf("%s: was %.120v, is %.120v", k, ma[k], mb[k])
+		}
+	}
+	return "differs"
+}
+
 func runC18(cases string, res *Result) {
+	c18LongLists(res)
 	var smoke []c18Seq
 	private := map[string]bool{"sort": true, "reverse": true, "merge": true, "keys": true, "split": true}
 	filters := (&twig.CoreExtension{}).GetFilters()
